@@ -123,7 +123,8 @@ def run(ctx):
         'Hybrid. PROVED for all inputs (pyvc): the contracts of force_alignment.py listed under functions_under_contract, including the DP '
         'invariant of viterbi_align (act_cost = V(t,.), V given by the Bellman optimality conditions) and its minimality: V(t, .) is a lower bound of the '
         'accumulated cost of EVERY allowed state path (inductive lemma over an uninterpreted path), so no allowed path ending in a final state is '
-        'cheaper than the returned one. '
+        'cheaper than the returned one; force_align (composition): the code builds exactly the expanded cost matrix and CTC topology of the labels, returns the '
+        'symbol of the optimal state per frame, and that sequence collapses to the labels (inductive lemma over collapse events). '
         'BOUNDED: force_align returns one symbol per frame that collapses to the labels with cost equal to the brute-force minimum '
         'over ALL frame labelings, raises exactly when no finite-cost alignment exists or the blank is among the labels; align_text '
         'positions are strictly increasing and each is the most confident frame of its block — on every cost matrix of a finite grid '
